@@ -8,6 +8,8 @@ import DispensoVerif.Model.ChaseLev
 import DispensoVerif.Model.RWLock
 import DispensoVerif.Model.DistRWLock
 import DispensoVerif.Model.ThreadId
+import DispensoVerif.Model.OpResult
+import DispensoVerif.Model.SmallVec
 
 /-! Handlers of the dvdriver line protocol. Core Lean only. -/
 namespace Driver
@@ -29,6 +31,8 @@ inductive Sess where
 
 structure St where
   sess : Sess := .none
+  opres : OpResult.St := OpResult.St.init
+  svec : SmallVec.St := SmallVec.St.init 4
 
 def St.init : St := {}
 
@@ -76,6 +80,69 @@ def bitsH (args : List String) : String :=
       s!"{r.1.toNat} {r.2.toNat}"
     | _, _ => "bad-op"
   | _ => "bad-op"
+
+/-- C40 OpResult: `opres reset` | `opres <op> <args…>`; reply `engaged value live` or `reject` -/
+def opresH (st : St) (args : List String) : St × String :=
+  match args with
+  | ["reset"] => ({ st with opres := OpResult.St.init }, "ok")
+  | opn :: rest =>
+    match nats rest with
+    | none => (st, "bad-op")
+    | some ns =>
+      let op? : Option OpResult.Op := match opn, ns with
+        | "mkEmpty", [] => some .mkEmpty
+        | "mkVal", [v] => some (.mkVal v)
+        | "copyCtor", [a] => some (.copyCtor a)
+        | "moveCtor", [a] => some (.moveCtor a)
+        | "copyAssign", [a, b] => some (.copyAssign a b)
+        | "moveAssign", [a, b] => some (.moveAssign a b)
+        | "emplace", [a, v] => some (.emplace a v)
+        | "destroy", [a] => some (.destroy a)
+        | "query", [a] => some (.query a)
+        | _, _ => none
+      match op? with
+      | none => (st, "bad-op")
+      | some op =>
+        let (s', o) := OpResult.step st.opres op
+        ({ st with opres := s' }, match o with
+          | some (e, v, l) => s!"{e} {v} {l}"
+          | none => "reject")
+  | _ => (st, "bad-op")
+
+/-- C38 SmallVector: `svec reset N` | `svec <op> <args…>`; reply `size cap live items…` or `reject` -/
+def svecH (st : St) (args : List String) : St × String :=
+  match args with
+  | ["reset", n] => match n.toNat? with
+    | some N => ({ st with svec := SmallVec.St.init N }, "ok")
+    | none => (st, "bad-op")
+  | opn :: rest =>
+    match ints rest with
+    | none => (st, "bad-op")
+    | some ns =>
+      let op? : Option SmallVec.Op := match opn, ns with
+        | "mk", [] => some .mk
+        | "mkCount", [n, x] => some (.mkCount n.toNat x)
+        | "copyCtor", [a] => some (.copyCtor a.toNat)
+        | "moveCtor", [a] => some (.moveCtor a.toNat)
+        | "copyAssign", [a, b] => some (.copyAssign a.toNat b.toNat)
+        | "moveAssign", [a, b] => some (.moveAssign a.toNat b.toNat)
+        | "pushBack", [a, x] => some (.pushBack a.toNat x)
+        | "popBack", [a] => some (.popBack a.toNat)
+        | "resize", [a, n, x] => some (.resize a.toNat n.toNat x)
+        | "reserve", [a, n] => some (.reserve a.toNat n.toNat)
+        | "clear", [a] => some (.clear a.toNat)
+        | "erase", [a, i] => some (.erase a.toNat i.toNat)
+        | "destroy", [a] => some (.destroy a.toNat)
+        | "query", [a] => some (.query a.toNat)
+        | _, _ => none
+      match op? with
+      | none => (st, "bad-op")
+      | some op =>
+        let (s', o) := SmallVec.step st.svec op
+        ({ st with svec := s' }, match o with
+          | some r => s!"{r.size} {r.cap} {r.live}" ++ (r.items.foldl (fun acc x => acc ++ " " ++ toString x) "")
+          | none => "reject")
+  | _ => (st, "bad-op")
 
 /-- `trace begin <protocol> <params…>` starts a session; `T <event…>` feeds one trace line -/
 def traceBegin (args : List String) : Sess × String :=
@@ -148,6 +215,8 @@ def traceLine (sess : Sess) (toks : List String) : Sess × String :=
 def dispatch (st : St) : List String → St × String
   | "chunk" :: rest => (st, chunkH rest)
   | "bits" :: rest => (st, bitsH rest)
+  | "opres" :: rest => opresH st rest
+  | "svec" :: rest => svecH st rest
   | "trace" :: "begin" :: rest =>
     let (s, r) := traceBegin rest
     ({ st with sess := s }, r)
